@@ -8,9 +8,15 @@ open Opn Opn.Synth
 def fnvB (h : Nat) (b : Nat) : Nat := ((h ^^^ (b % 256)) * 1099511628211) % 18446744073709551616
 
 /-- 8 bytes little endian, two's complement -/
+def fnvBytes : Nat → Nat → Nat → Nat
+  | 0, _, h => h
+  | n + 1, u, h => fnvBytes n (u / 256) (fnvB h (u % 256))
+
 def fnvInt (h : Nat) (x : Int) : Nat :=
-  let u := (x % 18446744073709551616).toNat
-  (List.range 8).foldl (fun h i => fnvB h (u / 256 ^ i % 256)) h
+  if x ≥ 0 && x < 256 then
+    -- one data byte followed by seven zero bytes
+    fnvBytes 7 0 (fnvB h x.toNat)
+  else fnvBytes 8 (x % 18446744073709551616).toNat h
 
 def fnvNat (h : Nat) (x : Nat) : Nat := fnvInt h x
 def fnvBool (h : Nat) (b : Bool) : Nat := fnvB h (if b then 1 else 0)
@@ -25,7 +31,7 @@ def hashCtl (h : Nat) (c : MidiCh) : Nat :=
   let h := [c.sustain, c.softPedal, c.portamentoEnable, c.portamentoRateSet, c.noteAfterTouchInUse, c.vibposZero, c.nrpn, c.isXgPerc].foldl fnvBool h
   let h := [c.portamentoSource, c.bend, c.bendMsb, c.bendLsb, c.vibdelayUs].foldl fnvInt h
   let h := fnvList h [c.lastlrpn, c.lastmrpn, c.brightness]
-  fnvList h c.noteAftertouch
+  if c.noteAfterTouchInUse then fnvList h c.noteAftertouch else h
 
 def hashRegs (h : Nat) (r : ChRegs) : Nat :=
   let h := fnvBool h r.keyOn
